@@ -5,10 +5,18 @@
    where TrackRemote's ids and codec come from.  ASSUMED (visible premise
    [carry_intact] in c23_media_path_partial): SRTP/ICE/DTLS carry a written
    packet to the read stream of its SSRC unchanged.
-   Statements only; proofs live in Proofs/MediaPath.v. *)
+   The comparison of one candidate codec inside Bind's search is in the model
+   too (Model/MediaBind.v over Model/Codec.v and Model/Fmtp.v, the
+   transcription of internal/fmtp): c23_bind_is_fuzzy_search ties the class
+   abstraction of c23_payload_type to codecParametersFuzzySearch on full codec
+   records, c23_h264_profile_iop_distinct says H264 formats that differ in the
+   profile-iop byte of profile-level-id never bind to one another's payload type.
+   Statements only; proofs live in Proofs/MediaPath.v and Proofs/MediaBind.v. *)
 From Coq Require Import List NArith String Bool.
 Import ListNotations.
 From Verif Require Import Common.Base Model.MediaPath Proofs.MediaPath.
+From Verif Require Import Model.Fmtp Model.MediaBind Proofs.MediaBind.
+From Verif Require Model.Codec.
 Open Scope string_scope.
 Open Scope list_scope.
 Open Scope N_scope.
@@ -57,6 +65,60 @@ Theorem c23_bind_fails_iff_no_match : forall ctx hay,
   bind ctx hay = None <-> (forall e, In e hay -> snd e <> 2 /\ snd e <> 1).
 Proof. exact bind_none. Qed.
 Print Assumptions c23_bind_fails_iff_no_match.
+
+(* the (payload type, class) haystack of c23_payload_type, computed: the class
+   of a candidate is what codecParametersFuzzySearch decides for it alone, and
+   Bind over the computed vector is codecParametersFuzzySearch over the
+   sender's negotiated codec list *)
+Theorem c23_bind_is_fuzzy_search : forall ctx needle hay,
+  bind_codec ctx needle hay =
+  match Codec.fuzzy_search needle hay with
+  | (_, Codec.MNone) => None
+  | (c, _) => Some {| b_ssrc := ctx; b_pt := Codec.c_pt c |}
+  end.
+Proof. exact bind_codec_is_fuzzy_search. Qed.
+Print Assumptions c23_bind_is_fuzzy_search.
+
+(* the payload type a bound track writes is that of an entry of the negotiated
+   list that matches the track's codec: the first exact match (same format per
+   internal/fmtp), else -- only when no entry matches exactly -- the first one
+   with the same mime type / clock rate / channels *)
+Theorem c23_bound_entry_matches : forall ctx needle hay b,
+  bind_codec ctx needle hay = Some b ->
+  b_ssrc b = ctx /\
+  exists l1 c l2, hay = l1 ++ c :: l2 /\ Codec.c_pt c = b_pt b /\
+    ((Codec.exact_ok needle c = true /\ forall x, In x l1 -> Codec.exact_ok needle x = false) \/
+     (Codec.partial_ok needle c = true /\ (forall x, In x hay -> Codec.exact_ok needle x = false) /\
+      forall x, In x l1 -> Codec.partial_ok needle x = false)).
+Proof. exact bind_codec_entry. Qed.
+Print Assumptions c23_bound_entry_matches.
+
+(* H264: an exact match means the same packetization-mode and
+   profile-level-ids whose first TWO bytes (profile_idc, profile-iop) agree;
+   the level byte does not take part *)
+Theorem c23_h264_exact_match : forall needle c,
+  is_h264 needle = true -> is_h264 c = true ->
+  (Codec.exact_ok needle c = true <->
+   exists pm x y, pmode_of needle = Some pm /\ pmode_of c = Some pm /\
+     plid_of needle = Some x /\ plid_of c = Some y /\
+     exists x0 x1 xr y0 y1 yr,
+       hex_decode_go x = Some (x0 :: x1 :: xr) /\ hex_decode_go y = Some (y0 :: y1 :: yr) /\
+       x0 = y0 /\ x1 = y1).
+Proof. exact h264_exact_bytes. Qed.
+Print Assumptions c23_h264_exact_match.
+
+(* distinct profile-iop bytes do not match: two H264 codecs whose
+   profile-level-ids differ in the second byte are never an exact match, so
+   neither is the other's class-2 candidate in Bind's search (42e01f does not
+   bind to the 42001f entry while its own entry is in the list) *)
+Theorem c23_h264_profile_iop_distinct : forall needle c x y x0 x1 xr y0 y1 yr,
+  is_h264 needle = true -> is_h264 c = true ->
+  plid_of needle = Some x -> plid_of c = Some y ->
+  hex_decode_go x = Some (x0 :: x1 :: xr) -> hex_decode_go y = Some (y0 :: y1 :: yr) ->
+  x1 <> y1 ->
+  Codec.exact_ok needle c = false /\ match_class needle c <> 2.
+Proof. exact h264_iop_not_exact. Qed.
+Print Assumptions c23_h264_profile_iop_distinct.
 
 (* the receiving side resolves a payload type in the negotiated list of a
    kind first (video before audio), in list order *)
@@ -132,3 +194,29 @@ Example c23_bind_nontrivial :
   bind 7 [(96, 0); (98, 1); (99, 1)] = Some {| b_ssrc := 7; b_pt := 98 |} /\
   bind 7 [(96, 0)] = None.
 Proof. repeat split; reflexivity. Qed.
+
+(* RegisterDefaultCodecs' video table: every H264 / VP9 variant binds to its
+   own payload type; another level binds to the same entry; a profile-iop the
+   table does not have falls back to the first H264 entry as a partial match *)
+Example c23_default_variants_bind :
+  let pt line := option_map b_pt
+        (bind_codec 7 (needle_of "video/H264" 90000 0 line) default_video_codecs) in
+  pt (h264_line "1" "42001f") = Some 102 /\ pt (h264_line "0" "42001f") = Some 104 /\
+  pt (h264_line "1" "42e01f") = Some 106 /\ pt (h264_line "0" "42e01f") = Some 108 /\
+  pt (h264_line "1" "4d001f") = Some 127 /\ pt (h264_line "0" "4d001f") = Some 39 /\
+  pt (h264_line "1" "64001f") = Some 112 /\
+  pt (h264_line "1" "42e028") = Some 106 /\
+  pt "profile-level-id=42E01F;packetization-mode=1" = Some 106 /\
+  pt (h264_line "1" "42c01f") = Some 102 /\
+  match_class (needle_of "video/H264" 90000 0 (h264_line "1" "42c01f"))
+              (Codec.mkCodec "video/H264" 90000 0 (h264_line "1" "42001f") [] 102) = 1 /\
+  option_map b_pt (bind_codec 7 (needle_of "video/VP9" 90000 0 "profile-id=0") default_video_codecs) = Some 98 /\
+  option_map b_pt (bind_codec 7 (needle_of "video/VP9" 90000 0 "profile-id=2") default_video_codecs) = Some 100.
+Proof. vm_compute. repeat split; reflexivity. Qed.
+
+Example c23_iop_premises_inhabited :
+  let n := needle_of "video/H264" 90000 0 (h264_line "1" "42e01f") in
+  let c := Codec.mkCodec "video/H264" 90000 0 (h264_line "1" "42001f") [] 102 in
+  is_h264 n = true /\ is_h264 c = true /\ plid_of n = Some "42e01f" /\ plid_of c = Some "42001f" /\
+  hex_decode_go "42e01f" = Some [66; 224; 31] /\ hex_decode_go "42001f" = Some [66; 0; 31].
+Proof. vm_compute. repeat split; reflexivity. Qed.
